@@ -83,7 +83,9 @@ func c26(x *Ctx) {
 				joins = append(joins, in)
 			}
 		})
-		isNewPacked := func(v ssa.Value) bool { return isExtractOf(v, 0, "(*transmit.batchedEvent).MarshalMsg", "(transmit.batchedEvent).MarshalMsg") }
+		isNewPacked := func(v ssa.Value) bool {
+			return isExtractOf(v, 0, "(*transmit.batchedEvent).MarshalMsg", "(transmit.batchedEvent).MarshalMsg")
+		}
 		lenOfNew := func(v ssa.Value) bool {
 			cl, ok := v.(*ssa.Call)
 			if !ok {
@@ -250,7 +252,9 @@ func c26(x *Ctx) {
 				poolWait = in
 			}
 			if r, ok := in.(*ssa.Range); ok {
-				if _, d := eng.Derives(r.X, func(v ssa.Value) bool { return loadsField(v, eng.FieldIs("transmit", "DirectTransmission", "eventBatches")) }, eng.FlowOpts{}); d {
+				if _, d := eng.Derives(r.X, func(v ssa.Value) bool {
+					return loadsField(v, eng.FieldIs("transmit", "DirectTransmission", "eventBatches"))
+				}, eng.FlowOpts{}); d {
 					rng = in
 				}
 			}
